@@ -259,7 +259,7 @@ func v2(w *World, r *Report) {
 	}
 	for _, c := range []struct{ fn, want string }{
 		{"AmountToPower", "int64(new(uint256.Int).Div(p0, types.amountPerPower).Uint64())"},
-		{"PowerToAmount", "new(uint256.Int).Mul(uint256.NewInt(uint64(p0)), types.amountPerPower)"},
+		{"PowerToAmount", mulExpr("new(uint256.Int)", "uint256.NewInt(uint64(p0))", "types.amountPerPower")},
 	} {
 		fn := needFn(r, "V-2", w, fref{pkgCT, "", c.fn})
 		if fn == nil {
